@@ -58,8 +58,24 @@ DefLeaves == <<
   \* number in the schema text and maps it back when a real outcome is recorded (exact integers on both sides, never floats)
   DL("integer-big",          PlainInt, JInt(Tok(1)), <<>>),
   DL("constant-integer-big", TConst(JInt(Tok(1))), NoJ, <<>>),
-  DL("int-enum-big-member",  TIEnum(<<1, Tok(1)>>), JInt(Tok(1)), <<>>)
+  DL("int-enum-big-member",  TIEnum(<<1, Tok(1)>>), JInt(Tok(1)), <<>>),
+  \* audit against notes/MUTATION_CLASSES.md: 5 (every falsy / empty default: false, 0, [] above; "" and 0.0 here),
+  \* 13 (a default and a constant behind an alias chain)
+  DL("string-empty",         PlainStr, JStr(""), <<>>),
+  DL("float-zero",           TNum("float64", NoB, NoB), JNum(0), <<>>),
+  DL("alias-integer",        TRef("A1"), JInt(3), <<Def("A1", TRef("A2")), Def("A2", PlainInt)>>),
+  DL("constant-alias-string", TRef("K1"), NoJ, <<Def("K1", TConst(JStr("x")))>>),
+  \* strings that are hostile to a hand-written literal: backslashes forming escapes (\t, \n, \x41, \\, trailing), both quotes
+  \* (token "@bs": python_common.STR_TOKENS), as default, as constant and as enum member
+  DL("string-backslashes",          PlainStr, JStr("@bs"), <<>>),
+  DL("constant-string-backslashes", TConst(JStr("@bs")), NoJ, <<>>),
+  DL("enum-backslash-member",       TEnum(<<"plain", "@bs">>), JStr("@bs"), <<>>),
+  \* a struct default overriding fields whose NAMES need quoting in CUE (dash, space, leading digit)
+  DL("struct-override-quoted-names", TRef("ChildQ"), JObj(<<P("max-value", JInt(9)), P("time-zone", JStr("x"))>>),
+     \* (a name with a space, "a b", makes the Go jenny emit a composite literal that does not parse: C02's subject)
+     <<Def("ChildQ", TStruct(<<FOptDef("max-value", PlainInt, JInt(7)), FOptDef("time-zone", PlainStr, JStr("nm")), FOptDef("min-value", PlainInt, JInt(1)), FOpt("note", PlainStr)>>))>>)
 >>
+
 
 (* -------------------------------- positions ------------------------------ *)
 DefPositions == <<"top", "optional", "ref", "anon">>
@@ -115,7 +131,8 @@ DFixedList2 == <<
   \* named collections: maps / arrays whose values are REFERENCES to named maps / arrays of objects, mixed with direct ones
   Fixed("named-collections", <<
     Def("Root", TStruct(<<F("cells", TMap(TRef("PointsByName"))), FOpt("rows", TArr(TRef("PointsByName"))), FOpt("lists", TMap(TRef("PointList"))),
-                          FOpt("deep", TMap(TMap(TRef("PointsByName")))), FOpt("grid", TRef("Grid")), FOpt("mixed", TMap(TArr(TRef("PointsByName"))))>>)),
+                          FOpt("deep", TMap(TMap(TRef("PointsByName")))), FOpt("grid", TRef("Grid")), FOpt("mixed", TMap(TArr(TRef("PointsByName")))),
+                          FOpt("cube", TArr(TArr(TArr(TRef("Point"))))), FOpt("rowsOfLists", TArr(TRef("PointList")))>>)),
     Def("PointsByName", TMap(TRef("Point"))), Def("PointList", TArr(TRef("Point"))), Def("Grid", TMap(TRef("PointsByName"))),
     Def("Point", TStruct(<<F("x", PlainInt), FOpt("y", PlainInt)>>))>>, FALSE),
   \* a discriminator mapping that is not injective: two values select the same type (OpenAPI discriminator.mapping)
@@ -125,14 +142,94 @@ DFixedList2 == <<
                           FOpt("shapes", TArr(TDUnionM("kind", <<"Circle", "Polygon">>,
                                                    <<[v |-> "circle", ref |-> "Circle"], [v |-> "square", ref |-> "Polygon"], [v |-> "triangle", ref |-> "Polygon"]>>)))>>)),
     Def("Circle", TStruct(<<F("kind", TConst(JStr("circle"))), F("r", PlainInt)>>)),
-    Def("Polygon", TStruct(<<F("kind", TEnum(<<"square", "triangle">>)), F("sides", PlainInt)>>))>>, FALSE)
+    Def("Polygon", TStruct(<<F("kind", TEnum(<<"square", "triangle">>)), F("sides", PlainInt)>>))>>, FALSE),
+  \* ---- audit against notes/MUTATION_CLASSES.md (appended: earlier ids unchanged) ----
+  \* 2: property names and object names that are letter-case twins, each with its own default
+  Fixed("case-twins-defaults", <<
+    \* twins that stay distinct in Go (first letter upper-cased) and in Python (snake_case): userid / userId, abc / aBc; object names
+    \* Item / ITEM. (name / Name and userID / userId collide in the generated code itself - `Name redeclared`, `duplicate argument
+    \* 'user_id'` -: C02's subject, they would only remove the whole unit from observation.)
+    Def("Root", TStruct(<<FDef("userid", PlainStr, JStr("lower")), FOptDef("userId", PlainStr, JStr("camel")), FDef("abc", PlainInt, JInt(3)), FDef("aBc", PlainInt, JInt(4)),
+                          F("itemA", TRef("Item")), F("itemB", TRef("ITEM")), FOpt("note", PlainStr), FOpt("noTe", PlainStr)>>)),
+    Def("Item", TStruct(<<FDef("v", PlainStr, JStr("mixed")), FOpt("w", PlainInt)>>)),
+    Def("ITEM", TStruct(<<FDef("v", PlainStr, JStr("UPPER")), FOpt("w", PlainInt)>>))>>, FALSE),
+  \* 1 / 4 / 6: the same type used twice in one struct with DIFFERENT defaults and every (required, optional) combination:
+  \* a memo keyed by the type, or "the first one wins", shows as the wrong default on the second use
+  Fixed("defaults-twice", <<
+    Def("Root", TStruct(<<
+      FDef("e1", TRef("E"), JStr("b")), FOptDef("e2", TRef("E"), JStr("a")), FDef("ie1", TEnum(<<"a", "b">>), JStr("b")), FDef("ie2", TEnum(<<"a", "b">>), JStr("a")),
+      FDef("l1", TArr(PlainStr), JArr(<<JStr("x"), JStr("y")>>)), FOptDef("l2", TArr(PlainStr), JArr(<<JStr("z")>>)),
+      FDef("c1", TRef("Child"), JObj(<<P("name", JStr("x"))>>)), FOptDef("c2", TRef("Child"), JObj(<<P("id", JInt(1))>>)), F("c3", TRef("Child")),
+      FDef("i1", PlainInt, JInt(3)), FDef("i2", PlainInt, JInt(0)), FOptDef("s1", PlainStr, JStr("ab")), FDef("s2", PlainStr, JStr("")),
+      F("k1", TRef("K1"))>>)),
+    DChild, DEnum, Def("K1", TConst(JStr("x")))>>, FALSE),
+  \* 1 / 12: TWO packages (definitions "x.Name" live in a second input; OpenAPI only): the SAME bare names with DIFFERENT
+  \* defaults / members / constants in both, referenced from one struct, the foreign ones first ... (no default ON a reference:
+  \* cog cannot generate from allOf + default, see NOTES)
+  Fixed("two-packages-defaults", <<
+    Def("Root", TStruct(<<F("fc", TRef("x.Child")), F("oc", TRef("Child")), F("fe", TRef("x.E")), F("oe", TRef("E")),
+                          F("fk", TRef("x.K1")), F("ok", TRef("K1")), FOpt("fa", TRef("x.A1")), FDef("n", PlainInt, JInt(3))>>)),
+    DChild, DEnum, Def("K1", TConst(JStr("x"))),
+    Def("x.Child", TStruct(<<FOptDef("id", PlainInt, JInt(70)), FOptDef("name", PlainStr, JStr("foreign")), FOptDef("extra", TBool, JBool(TRUE)),
+                               FOptDef("mode", TEnum(<<"p", "q">>), JStr("q"))>>)),
+    Def("x.E", TEnum(<<"p", "q">>)), Def("x.K1", TConst(JStr("y"))), Def("x.A1", TRef("x.Child"))>>, FALSE),
+  \* ... and the own ones first
+  Fixed("two-packages-defaults-reversed", <<
+    Def("Root", TStruct(<<F("oc", TRef("Child")), F("fc", TRef("x.Child")), F("oe", TRef("E")), F("fe", TRef("x.E")),
+                          F("ok", TRef("K1")), F("fk", TRef("x.K1")), FDef("n", PlainInt, JInt(3))>>)),
+    DChild, DEnum, Def("K1", TConst(JStr("x"))),
+    Def("x.Child", TStruct(<<FOptDef("id", PlainInt, JInt(70)), FOptDef("name", PlainStr, JStr("foreign")), FOptDef("extra", TBool, JBool(TRUE)),
+                               FOptDef("mode", TEnum(<<"p", "q">>), JStr("q"))>>)),
+    Def("x.E", TEnum(<<"p", "q">>)), Def("x.K1", TConst(JStr("y")))>>, FALSE),
+  \* 13: documents through alias chains of length 2 and 3 before a struct / a collection of structs ...
+  Fixed("alias-chains-struct", <<
+    Def("Root", TStruct(<<F("p", TRef("T1")), FOpt("ps", TRef("L1")), FOpt("m", TRef("M1")), FOpt("ap", TArr(TRef("T2")))>>)),
+    Def("T1", TRef("T2")), Def("T2", TRef("T3")), Def("T3", TRef("Point")),
+    Def("L1", TRef("L2")), Def("L2", TArr(TRef("T1"))), Def("M1", TRef("M2")), Def("M2", TMap(TRef("Point"))),
+    Def("Point", TStruct(<<F("x", PlainInt), FOpt("y", PlainInt)>>))>>, FALSE),
+  \* ... and before an enum, a constant, a constrained scalar (separate: a defect of one must not hide the other)
+  Fixed("alias-chains-scalar", <<
+    Def("Root", TStruct(<<F("e", TRef("E3")), F("k", TRef("K1")), FOpt("n", TRef("N1")), FOpt("es", TArr(TRef("E3")))>>)),
+    Def("E3", TRef("E2")), Def("E2", TRef("E")), DEnum, Def("K1", TRef("K2")), Def("K2", TConst(JStr("x"))),
+    Def("N1", TRef("N2")), Def("N2", TInt("int64", Ge(0), NoB))>>, FALSE),
+  \* optional / nullable date-times (alone, in arrays, in maps): documents with the field absent
+  Fixed("optional-times", <<
+    Def("Root", TStruct(<<F("t", TTime), FOpt("ot", TTime), FOptNull("ont", TTime), FNull("nt", TTime), FOpt("ats", TArr(TTime)),
+                          FOpt("mt", TMap(TTime)), FOpt("inner", TRef("Stamp"))>>)),
+    Def("Stamp", TStruct(<<FOpt("at", TTime), F("label", PlainStr)>>))>>, FALSE),
+  \* two union-typed fields whose NAMES extend each other by the suffixes a generator appends to its helper names (_ref, _array, _map,
+  \* _union): one union reached through a NAMED union / an array / a map, the sibling inline, with different branches
+  Fixed("helper-name-collisions", <<
+    Def("Root", TStruct(<<F("datasource", TRef("DS")), F("datasource_ref", TDUnion("kind", <<"Zebra", "Apple">>)),
+                          FOpt("items", TArr(TDUnion("kind", <<"Mango", "Apple">>))), FOpt("items_array", TDUnion("kind", <<"Zebra", "Mango">>)),
+                          FOpt("byKey", TMap(TDUnion("kind", <<"Zebra", "Apple">>))), FOpt("byKey_map", TDUnion("kind", <<"Mango", "Zebra">>)),
+                          FOpt("one", TDUnion("kind", <<"Apple", "Mango">>)), FOpt("one_union", TRef("DS"))>>)),
+    Def("DS", TDUnion("kind", <<"Mango", "Zebra">>)), UMango, UZebra, UApple>>, FALSE),
+  \* constants, discriminators, enum members and defaults made of characters a string literal has to escape
+  Fixed("string-literals", <<
+    Def("Root", TStruct(<<F("sep", TConst(JStr("@bt"))), F("mode", TEnum(<<"@bt", "plain">>)), FOptDef("d", PlainStr, JStr("@bt")),
+                          FOpt("u", PlainStr), F("du", TDUnion("kind", <<"Tab", "Plain">>))>>)),
+    Def("Tab", TStruct(<<F("kind", TConst(JStr("@bt"))), F("n", PlainInt)>>)),
+    Def("Plain", TStruct(<<F("kind", TConst(JStr("plain"))), FOpt("s", PlainStr)>>))>>, FALSE)
 >>
+
+\* the default declared as a disjunction of the type with a CONSTANT (compiler pass disjunction_with_constant_to_default, enabled for
+\* these units only): entry field `spell` = which branch comes first; the renderer spells anyOf:[{const}, {type}] / `"utc" | string`
+ConstDisjLeaves == <<
+  DL("disjunction-constant-string",  PlainStr, JStr("utc"), <<>>), DL("disjunction-constant-integer", PlainInt, JInt(3), <<>>),
+  DL("disjunction-constant-float",   TNum("float64", NoB, NoB), JNum(15), <<>>), DL("disjunction-constant-bool", TBool, JBool(TRUE), <<>>)
+>>
+ConstDisjEntries ==
+  LET one(sp, pos) == [i \in DOMAIN ConstDisjLeaves |-> [schema |-> DSchema(ConstDisjLeaves[i], pos), leaf |-> ConstDisjLeaves[i].name,
+                                                           pos |-> pos, cons |-> FALSE, spell |-> sp]]
+  IN one("const-first", "top") \o one("const-last", "top") \o one("const-first", "optional") \o one("const-last", "optional")
 
 DefCatalogue ==
   DFixedList
   \o [i \in 1..(Len(DefLeaves) * Len(DefPositions)) |->
         DEntry(DefLeaves[((i - 1) \div Len(DefPositions)) + 1], DefPositions[((i - 1) % Len(DefPositions)) + 1])]
   \o DFixedList2
+  \o ConstDisjEntries
 
 InDef(i)   == i > IdBase /\ (i - IdBase) \in DOMAIN DefCatalogue
 EntryOf(i) == IF InDef(i) THEN DefCatalogue[i - IdBase] ELSE Catalogue[i]
@@ -149,7 +246,8 @@ DSpec == DInit /\ [][Next]_vars
 
 DEmit ==
   LET e == EntryOf(si) IN
-  CASE Mode = "index"    -> PrintT(<<"INDEX", ToJson([id |-> si, leaf |-> e.leaf, pos |-> e.pos, cons |-> e.cons, schema |-> e.schema])>>)
+  CASE Mode = "index"    -> PrintT(<<"INDEX", ToJson([id |-> si, leaf |-> e.leaf, pos |-> e.pos, cons |-> e.cons, schema |-> e.schema,
+                                                       spell |-> IF "spell" \in DOMAIN e THEN e.spell ELSE "plain"])>>)
     [] Mode = "cases"    -> PrintT(<<"CASE", ToJson([id |-> si] @@ Expect(e.schema, dx))>>)
     [] Mode = "defaults" ->
          LET S == DefsFn(e.schema)
